@@ -170,12 +170,17 @@ def gen_prog(rng, maxlen):
         p += c
     return p or "-"
 
+# scenarios that are ALWAYS explored by a complete depth-first enumeration of their interleavings ("-" = the thread only
+# drops the one handle it starts with): k threads each dropping their last handle at the same time (k = 2, 3, 4),
+# one thread copying and dropping while the others drop, a use racing with the last releases.
+MANDATORY = ["- -", "- - -", "- - - -", "CD -", "cr -", "CD - -", "C - -", "CD CD", "U - -", "x r", "CDD Ur"]
+
 def conc_cases(rng, thorough):
-    fixed = ["conc 100000 dfs - -", "conc 100000 dfs D D", "conc 100000 dfs CD D D", "conc 100000 dfs CD cr", "conc 100000 dfs CUD cr Ux",
-             "conc 100000 dfs CC UD", "conc 100000 dfs x r D D", "conc 100000 dfs CDD Ur"]
-    if thorough:
-        fixed += ["conc 100000 dfs CDD CDD CDD", "conc 100000 dfs CcDD crU", "conc 100000 dfs U U U U", "conc 100000 dfs CD CD D D"]
-    out = list(fixed)
+    cap_fixed = 100000 if thorough else 6000
+    out = ["conc 100000 dfs " + p for p in MANDATORY]
+    fixed = ["CUD cr Ux", "CC UD", "x r D D"]
+    if thorough: fixed += ["CDD CDD CDD", "CcDD crU", "U U U U", "CD CD D D"]
+    out += ["conc %d dfs %s" % (cap_fixed, p) for p in fixed]
     budget = 40000 if thorough else 2500
     nrand = 60 if thorough else 16
     for k in range(nrand):
@@ -183,7 +188,8 @@ def conc_cases(rng, thorough):
         progs = [gen_prog(rng, 5 if nt == 2 else 3) for _ in range(nt)]
         total = multinomial([prog_ops(p) for p in progs])
         share = budget // nrand
-        if total <= share: out.append("conc 100000 dfs " + " ".join(progs))
+        # the cap also bounds the enumeration when the code under test performs more atomic operations than expected
+        if total <= share: out.append("conc %d dfs %s" % (4 * share, " ".join(progs)))
         else: out.append("conc %d rand:%d:%d %s" % (share, rng.below(1 << 30), share, " ".join(progs)))
     return out
 
@@ -270,10 +276,10 @@ elif seq_cases:
         samples = [{"case": seq_cases[i], "result": impl[i]} for i in (0, ncorpus + 40, ncorpus + nexh + 1) if i < len(impl)]
 
 # ------------------------------------------------------------------------------------------------ concurrent part: interleavings under the shim
-conc_stats = {"conc_cases": len(cc_cases), "interleavings": 0, "exhaustive_cases": 0, "distinct_traces": 0, "preempted_traces": 0, "max_depth": 0}
+conc_stats = {"conc_cases": len(cc_cases), "mandatory_scenarios_fully_enumerated": 0, "interleavings": 0, "exhaustive_cases": 0, "distinct_traces": 0, "preempted_traces": 0, "max_depth": 0}
 if cc_cases and drv is not None:
     shim = os.path.join(verif.VERIF, "harness", "C12", "atomic_shim.hpp")
-    cexe, clog = ck.build_cpp("c12_conc", ["harness/C12/conc_harness.cpp"], extra=["-include", shim])
+    cexe, clog = ck.build_cpp("c12_conc", ["harness/C12/conc_harness.cpp"], extra=["-include", shim, "-DNDEBUG"])
     if cexe is None:
         ck.violation("interleaving harness (std::atomic shim) does not compile against /repo", {"correspondence": "harness/C12/conc_harness.cpp", "log": clog[-2000:]}, no_input=True)
     else:
@@ -295,8 +301,13 @@ if cc_cases and drv is not None:
             rc2, out2 = verif.sh([drv, trfile], timeout=3000)
             traces = open(trfile).read().splitlines(); verdicts = out2.splitlines()
             seen = set()
-            for s in summ:
+            for si, s in enumerate(summ):
                 m = re.search(r"interleavings=(\d+) exhaustive=(\d) depth=(\d+)", s)
+                if m and not ck.replay and ncorpus_conc <= si < ncorpus_conc + len(MANDATORY):
+                    if m.group(2) == "1": conc_stats["mandatory_scenarios_fully_enumerated"] += 1
+                    elif s.rstrip().endswith("P=ok"):
+                        ck.violation("a mandatory small scenario could not be enumerated completely (the code performs far more atomic operations than the model expects): " + s,
+                                     {"case": cc_cases[si], "correspondence": "harness/C12/conc_harness.cpp"}, no_input=True)
                 if m:
                     conc_stats["interleavings"] += int(m.group(1)); conc_stats["exhaustive_cases"] += int(m.group(2))
                     conc_stats["max_depth"] = max(conc_stats["max_depth"], int(m.group(3)))
@@ -362,14 +373,15 @@ ck.finish({
             "after every step get()/bool/use_count()/unique()/payload of every variable and the destructor log are compared, and the property is evaluated on the implementation's observations alone. "
             "non-trivial = the history reaches a state with a shared object and destroys an object before the end; distinct = distinct case text. "
             "(2) 2-4 real threads running copy/drop programs on one shared object under a deterministic scheduler (std::atomic inside tlx redirected by a force-included shim): "
-            "all interleavings (dfs) when they fit the budget, else sampled schedules; every logged event trace (fetch_add/fetch_sub with the value read, Deleter, use) is replayed on the extracted transition system of Conc.v. "
+            "every atomic operation (read-modify-write, plain load, plain store) and the Deleter call are scheduling points; a fixed list of small scenarios (k = 2,3,4 threads each dropping their last handle at the same time, copy+drop against drop, use against the last releases) is ALWAYS enumerated completely, the other programs completely when they fit the budget, else sampled; the Deleter passed to CountingPtr counts its calls (exactly 1 required) and defers the release of the memory, so a double destruction is a reported verdict with its schedule, not a crash; every logged event trace (fetch_add/fetch_sub with the value read, Deleter, use) is replayed on the extracted transition system of Conc.v. "
             "non-trivial = a thread is preempted between two of its shared actions; distinct = distinct event trace. "
-            "(3) real-thread stress (2 and 3 threads x 1e5 operations, several rounds; TSan build in the thorough tier): counted only in input_distribution.",
+            "(3) real-thread stress with real std::atomic (2 and 3 threads; per round 1e5 mixed handle operations per thread on one shared object, then a release race: every thread lets go of each of 20000 objects at the same moment behind a per-object spin barrier, with a Deleter that counts its calls - every object must see exactly one; TSan build in the thorough tier): counted only in input_distribution.",
     "samples": samples,
     "input_distribution": dict(stats, seq_ops=opstats, **conc_stats, stress_rounds_ok=stress_stats),
     "traces_validated_against_impl": conc_stats["interleavings"],
 }, assumptions=[
     "extraction: ExtrOcamlBasic only; nat/list stay Coq inductives",
+    "the interleaving harness is compiled with -DNDEBUG (the asserts of ReferenceCounter would add a plain load, i.e. a scheduling point, to every operation); the sequential harness and the stress run keep the asserts",
     "std::atomic<size_t> is modelled as sequentially consistent, one event per read-modify-write (the source uses the default seq_cst ++/--); the shim gives exactly that semantics; weak-memory behaviour is outside the model and only exercised by the real-thread stress run (ASan, TSan in the thorough tier)",
     "lifetime preconditions of the C++ object model (constructors on raw storage, everything else on constructed handles; use_count() only on non-empty handles) are preconditions of the histories: an operation violating them is skipped by model and harness alike",
     "the managed type's own destructor/copy constructor do not touch CountingPtr handles (payload is plain data)",
